@@ -1006,6 +1006,10 @@ func main() {
 		w.suiteSubset = nil
 
 		w.runEnvelopes(tr, kind, sd, signed, args.Seed, i)
+
+		if kind == "vp" {
+			w.embeddedReport(tr, sd, signed, g.embeddedBroken, args.Seed, i)
+		}
 	}
 }
 
@@ -1254,4 +1258,43 @@ func (w *world) parseReal(kind string, b []byte, strict bool) (error, map[string
 	}
 
 	return err, parsed
+}
+
+// embeddedReport records what a verified presentation says about the credential objects it embeds: the presentation proof
+// covers them (their content is what the holder signed), their OWN proofs are not checked by ParsePresentation - a
+// caller has to hand them to ParseCredential.  Observation, no demand beyond the presentation verifying.
+func (w *world) embeddedReport(tr *hx.Trace, sd *suiteDef, signed map[string]interface{}, broken int, seed uint64, idx int) {
+	vd, _ := w.verify("vp", toJSON(signed), false)
+
+	bad, withProof := 0, 0
+
+	creds, _ := signed["verifiableCredential"].([]interface{})
+	for _, c := range creds {
+		m, isObj := c.(map[string]interface{})
+		if !isObj || m["proof"] == nil {
+			continue
+		}
+
+		withProof++
+
+		if v, _ := w.verify("vc", toJSON(m), false); !v.Accepted {
+			bad++
+		}
+	}
+
+	r := &hx.Record{Kind: "generated", Oracle: "ok",
+		Case:     envCase{Kind: "vp", Suite: sd.name, Repr: reprName(sd.repr), Edit: "embedded own-proofs", Class: "observation", Seed: seed, DocIndex: idx},
+		Observed: map[string]interface{}{"presentation": vd, "embedded_with_proof": withProof, "embedded_own_proof_invalid": bad, "broken_before_holder_signed": broken}}
+
+	if bad != broken {
+		r.Oracle, r.Sig, r.Detail = "fail", "embedded-proof-count", fmt.Sprintf("%d embedded credentials fail their own proof, %d were broken", bad, broken)
+	}
+
+	if broken > 0 && (!vd.Accepted || vd.Verifies < 1) {
+		r.Oracle, r.Sig, r.Detail = "fail", "signed-rejected:embedded", "a presentation the holder signed over a credential with an invalid own proof does not verify (the model says embedded proofs are not checked)"
+	}
+
+	r.Class = fmt.Sprintf("vp|%s|embedded|%d/%d|%v", sd.name, bad, withProof, vd.Accepted)
+	r.Dist = []string{"edit=embedded-own-proofs", fmt.Sprintf("embedded_invalid=%d", bad)}
+	tr.Put(r)
 }
